@@ -281,7 +281,7 @@ pub fn check(case: &Case) -> Verdict {
             // ratio: non-zero divisor, and (decimal) the divisor in the
             // dividend's unit and the quotient inside the range
             let div_ok = if cfg!(feature = "dec") {
-                !rb.is_zero() && !b_in_a.is_zero() && in_range(&ra.div(&b_in_a)) && in_range(&ra.div(&rb))
+                !rb.is_zero() && !b_in_a.is_zero() && in_range(&ra.div(&b_in_a))
             } else {
                 true
             };
